@@ -273,16 +273,16 @@ func runDispatch(c dispCase, seed uint64, st *stats, oracle func(string, ...any)
 			select {
 			case res = <-resCh:
 				resCh <- res
-			case <-time.After(1500 * time.Millisecond):
-				oracle("C03 Send did not return within 1.5s of the cancel while nodes were still running (it waits for them): %s", c)
+			case <-time.After(5 * time.Second):
+				oracle("C03 Send did not return within 5s of the cancel while nodes were still running (it waits for them): %s", c)
 			}
 		}
 		// no cancel took effect (or none requested): let the slow nodes go and wait for Send
 		releaseAll()
 		select {
 		case res = <-resCh:
-		case <-time.After(3 * time.Second):
-			oracle("C03 Send did not return within 3s: %s", c)
+		case <-time.After(10 * time.Second):
+			oracle("C03 Send did not return within 10s: %s", c)
 			eventlogger.SetVerifHook(nil)
 			return nil, nil
 		}
@@ -294,7 +294,7 @@ func runDispatch(c dispCase, seed uint64, st *stats, oracle func(string, ...any)
 	h.mu.Unlock()
 	if cancelled && !released && len(slowNodes) > 0 {
 		st.hit("returned-while-nodes-blocked")
-		if d := sendReturned.Sub(cancelT); d > 500*time.Millisecond {
+		if d := sendReturned.Sub(cancelT); d > 2*time.Second {
 			oracle("C03 Send returned %v after the cancel although only nodes were blocking: %s", d, c)
 		}
 	}
@@ -303,8 +303,8 @@ func runDispatch(c dispCase, seed uint64, st *stats, oracle func(string, ...any)
 	// once every node invocation returned, no goroutine of this Send may remain: the ranger must close
 	select {
 	case <-h.closedCh:
-	case <-time.After(3 * time.Second):
-		oracle("C03 goroutines of the Send did not finish within 3s after all nodes were released: %s", c)
+	case <-time.After(10 * time.Second):
+		oracle("C03 goroutines of the Send did not finish within 10s after all nodes were released: %s", c)
 		eventlogger.SetVerifHook(nil)
 		return nil, nil
 	}
